@@ -127,14 +127,27 @@ def run_scenario(scn, want_events=True, twin_fin=None):
             if scn["mode"] == "pre":
                 model.pre_computed_distance = True
     CTX.update(on=True, model=model, snaps=[])
+    orig = model
     try:
         try:
+            # with feature-based distances the index array is only a set of identifiers: any values must do (id_offset
+            # makes them collide with the positions SemiSupervisedOPF gives the unlabeled nodes)
+            ids = np.array(I_train) + (int(scn.get("id_offset", 0)) if scn["mode"] != "pre" else 0)
             if scn["kind"] == "sup":
-                model.fit(Xtr.copy(), Ytr.copy(), np.array(I_train) if passI else None)
+                model.fit(Xtr.copy(), Ytr.copy(), ids if passI else None)
             else:
-                model.fit(Xtr.copy(), Ytr.copy(), Xu.copy(), np.array(I_train) if passI else None)
+                model.fit(Xtr.copy(), Ytr.copy(), Xu.copy(), ids if passI else None)
         finally:
             CTX["on"] = False
+        orig = model
+        if scn.get("reload") and scn["mode"] in ("metric", "pre"):
+            # object history: the fitted model goes through save -> load into a freshly constructed object (default arguments,
+            # i.e. another metric) before it predicts
+            path = os.path.join(H.subdir("reload"), "m-%d.pkl" % os.getpid())
+            model.save(path)
+            model = type(orig)()
+            model.load(path)
+            os.remove(path)
         nodes = model.subgraph.nodes
         n = len(nodes)
         if n != nl + len(U):
@@ -174,7 +187,7 @@ def run_scenario(scn, want_events=True, twin_fin=None):
         D = Dfull[np.ix_(rows, rows)]
         DQ = Dfull[np.ix_(rows, Q)] if Q else np.zeros((n, 0))  # code reads pre[train.idx][query.idx]
     else:
-        fn = model.distance_fn
+        fn = orig.distance_fn
         D = np.zeros((n, n))
         for i in range(n):
             for j in range(n):
